@@ -497,6 +497,27 @@ OP(kx_server) {
     c.emit(pk2, 32); c.emit(rx, 32); c.emit(tx, 32); c.emit(a);
 }
 
+// objects prepared by the main thread before the workers start and then only READ by the library from several
+// threads at once (a precomputed AES-GCM key schedule, a precomputed box key).  They are registered as tracked
+// memory, so a write into such a "const" object from two threads is seen by the race detector.
+struct SharedRO {
+    alignas(64) crypto_aead_aes256gcm_state gcm;
+    unsigned char box_k[32];
+    unsigned char key[32];
+    bool ready = false, gcm_ready = false;
+};
+SharedRO *g_shared = nullptr;
+OP(aes256gcm_shared_state) {
+    size_t n = 17 + c.in.below(300); unsigned char *m = c.input(n), *no = c.input(12), *ct = c.buf(n + 16), *d = c.buf(n); unsigned long long cl = 0, dl = 0; int v = -3;
+    if (g_shared && g_shared->gcm_ready) { LibScope l; crypto_aead_aes256gcm_encrypt_afternm(ct, &cl, m, n, nullptr, 0, nullptr, no, &g_shared->gcm); v = crypto_aead_aes256gcm_decrypt_afternm(d, &dl, nullptr, ct, cl, nullptr, 0, no, &g_shared->gcm); }
+    c.emit(ct, (size_t) cl); c.emit(v); c.emit(d, (size_t) dl);
+}
+OP(box_afternm_shared) {
+    size_t n = c.in.below(200); unsigned char *m = c.input(n), *no = c.input(24), *ct = c.buf(n + 16), *d = c.buf(n); int v = -3;
+    if (g_shared && g_shared->ready) { LibScope l; crypto_box_easy_afternm(ct, m, n, no, g_shared->box_k); v = crypto_box_open_easy_afternm(d, ct, n + 16, no, g_shared->box_k); }
+    c.emit(ct, n + 16); c.emit(v);
+}
+
 static void verif_misuse_handler(void) {}
 // public API that is rarely called but must be as thread-safe as the rest: installing the (same) misuse handler takes
 // the library lock; stir/close of the installed random source touch only per-thread state on this platform
@@ -522,6 +543,7 @@ const OpDesc OPS[] = {
     {"onetimeauth_multi", op_onetimeauth_multi}, {"siphashx24", op_siphashx24}, {"hkdf_sha512", op_hkdf_sha512}, {"secretbox_detached", op_secretbox_detached}, {"box_xchacha", op_box_xchacha},
     {"sign_convert", op_sign_convert}, {"sign_combined", op_sign_combined}, {"ed25519_scalars", op_ed25519_scalars}, {"ristretto_hash", op_ristretto_hash}, {"h2c", op_h2c},
     {"pwhash_str_argon2i", op_pwhash_str_argon2i}, {"base64_variants", op_base64_variants}, {"kx_server", op_kx_server},
+    {"aes256gcm_shared_state", op_aes256gcm_shared_state}, {"box_afternm_shared", op_box_afternm_shared},
 };
 const size_t NOPS = sizeof OPS / sizeof OPS[0];
 // ops whose results depend on the random source (weighted up: the default generator and guarded allocation are named by the property)
@@ -626,6 +648,20 @@ Outcome run_plan(const PlanT &p, int strategy, const std::vector<int> &seq_order
     RT.est_steps = 80 * (uint64_t) p.nthreads + 250 * (uint64_t) p.ops.size() + 50; // where PCT places its priority-change points
     RT.reset(p.nthreads, p.sched_seed, strategy, p.pct_depth);
     RT.mark = ENV.in_init;
+    if (p.preinit) {
+        // shared read-only objects (only meaningful once the library is initialised)
+        static SharedRO *storage = nullptr;
+        if (!storage) { void *mem = nullptr; if (posix_memalign(&mem, 64, sizeof(SharedRO)) != 0) _exit(3); storage = new (mem) SharedRO(); }
+        g_shared = storage;
+        Rng sr(mix64(p.content_seed, 0x5a4ed));
+        unsigned char pk[32], sk[32], seed[32];
+        sr.fill(g_shared->key, 32); sr.fill(seed, 32);
+        { LibScope l;
+          crypto_box_seed_keypair(pk, sk, seed); crypto_box_beforenm(g_shared->box_k, pk, sk);
+          g_shared->gcm_ready = crypto_aead_aes256gcm_is_available() && crypto_aead_aes256gcm_beforenm(&g_shared->gcm, g_shared->key) == 0; }
+        g_shared->ready = true;
+        simrt::register_block((uintptr_t) g_shared, sizeof(SharedRO), 'S', true);
+    } else g_shared = nullptr;
     RT.main_inline = p.inline_main && !p.preinit && strategy != simrt::S_SEQUENTIAL; // the reference runs the winner first, whoever that was
     RT.seq_order = seq_order;
     RT.detect_races = detect;
@@ -643,7 +679,7 @@ struct C19 {
     static const char *name() { return "c19_threads"; }
     static const char *level() { return "exploration"; }
     static const char *rule() {
-        return "seeded plans: N in 2..16 real threads, each calling sodium_init() and then 0-12 operations drawn from a 68-entry table covering every API family (no barrier "
+        return "seeded plans: N in 2..16 real threads, each calling sodium_init() and then 0-12 operations drawn from a 70-entry table covering every API family (no barrier "
                "between init and workload), under RNG configuration {default sysrandom over simulated getrandom, internal, scripted} and lock variant " C19_LOCK_VARIANT
                ". Exactly one thread is runnable at a time; a seeded scheduler (random walk / PCT depth 1-4 / loser-first / coarse) decides at every instrumented access to "
                "tracked memory, every lock/unlock, atomic and wrapped system call. Oracles: own vector-clock happens-before race detector over the TSan compiler ABI "
@@ -692,6 +728,9 @@ struct C19 {
                     const char *nm = RNG_HEAVY[o.below(sizeof RNG_HEAVY / sizeof RNG_HEAVY[0])];
                     for (size_t q = 0; q < NOPS; q++) if (!strcmp(OPS[q].name, nm)) op.op = (int) q;
                 } else op.op = (int) o.below(NOPS);
+                bool is_shared = !strncmp(OPS[(size_t) op.op].name + (strlen(OPS[(size_t) op.op].name) > 6 ? 0 : 0), "aes256gcm_shared", 16) || !strcmp(OPS[(size_t) op.op].name, "box_afternm_shared");
+                if (is_shared && !p.preinit) op.op = (int) o.below(NOPS - 2); // shared read-only objects exist only in pre-initialised plans
+                if (p.preinit && o.chance(1, 4)) { op.op = (int) (NOPS - 2 + o.below(2)); }
                 p.ops.push_back(op);
             }
         }
